@@ -373,6 +373,16 @@ def _checks():
                  'truncations, CR, LF, NUL, random bytes) x 10 newlines; '
                  'non-trivial = contains the newline and is longer than it'),
         EnumCheck(
+            'growing-payload', growing_chunks, run_growing_chunk,
+            run_case=run_growing_case,
+            rule='every string over the alphabet up to length LG split, then '
+                 'the same string extended by one of five tails split again '
+                 'with the same newline and mode (10 + 2 newlines, both '
+                 'modes): the second result equals the reference split of '
+                 'the second string; non-trivial = the first string '
+                 'contains the newline',
+            bound={'quick': 'LG = 5', 'thorough': 'LG = 6'}),
+        EnumCheck(
             'interpreter-flags', flag_chunks, run_flag_chunk,
             run_case=run_flag_case,
             rule='10 strings x 10 newlines x both modes split in this '
@@ -383,6 +393,78 @@ def _checks():
             bound={'quick': '200 results, three interpreters',
                    'thorough': 'same'}),
     ]
+
+
+def growing_chunks(tier, seed):
+    n = 5 if tier == 'quick' else 6
+    out = []
+
+    for nl in NEWLINES + EBCDIC_NEWLINES:
+        for first in range(5):
+            out.append((nl, first, n))
+
+    return out
+
+
+def run_growing_chunk(chunk, st):
+    """A payload that grows between two calls (a diff being appended to and
+    analysed again): the second result is that of the second payload."""
+    import itertools
+    nl, first, maxlen = chunk
+    ns = sut.load()
+    split = ns.text.split_lines
+    alphabet = EBCDIC_ALPHABET if nl in EBCDIC_NEWLINES else ALPHABET
+    evals = nontrivial = 0
+    sample = None
+    tails = (nl + b'q', b'q' + nl, b'q', nl, nl[:1] or b'\n')
+
+    for n in range(0, maxlen):
+        for rest in itertools.product(alphabet, repeat=n):
+            data = alphabet[first] + b''.join(rest)
+
+            for keep in (False, True):
+                for tail in tails:
+                    grown = data + tail
+                    split(data, nl, keep)
+                    got = split(grown, nl, keep)
+                    parts = spec.split_keep(grown, nl)
+                    want = parts if keep else [
+                        p[:-len(nl)] if p.endswith(nl) else p for p in parts]
+                    evals += 1
+
+                    if nl in data:
+                        nontrivial += 1
+
+                    if list(got) != want:
+                        st.violation(
+                            'result-depends-on-the-previous-call',
+                            'split(%r) then split(%r) (newline %r, '
+                            'keep_ends=%r) gave %r, expected %r'
+                            % (data, grown, nl, keep, got, want),
+                            {'data': data, 'tail': tail, 'newline': nl,
+                             'keep_ends': keep})
+                        break
+                    elif sample is None and nl in data:
+                        sample = {'data': data, 'tail': tail, 'newline': nl}
+
+    st.bulk(evals, nontrivial, sample=sample)
+
+
+def run_growing_case(case, st):
+    ns = sut.load()
+    split = ns.text.split_lines
+    nl, keep = case['newline'], case['keep_ends']
+    grown = case['data'] + case['tail']
+    split(case['data'], nl, keep)
+    got = split(grown, nl, keep)
+    parts = spec.split_keep(grown, nl)
+    want = parts if keep else [p[:-len(nl)] if p.endswith(nl) else p
+                               for p in parts]
+    st.case(case, nontrivial=True)
+
+    if list(got) != want:
+        st.violation('result-depends-on-the-previous-call',
+                     '%r, expected %r' % (got, want), case)
 
 
 def flag_chunks(tier, seed):
